@@ -319,6 +319,7 @@ def shard_fn(shard, nshards, seed, tier, exe, nhist):
 def run(tier, seed):
     bdir = build.build("asan")
     chk = core.Check(PID, tier, seed)
+    os.environ["VF_RECORD_SKIP"] = r"PBGIANT| p \d+ | lp \d+|PB app a \d{7,}"   # (not in the memcheck sample: 2 GiB and MiB-scale buffers take minutes under valgrind)
     rd = core.record_dir(PID) if tier == "thorough" else None
     sh = core.parallel(shard_fn, seed=seed, tier=tier, exe=bdir + "/jcdrv", nhist=64000 if tier == "quick" else 1000000)
     chk.absorb(sh)
